@@ -357,7 +357,7 @@ impl Parse for ConversionsAttribute {
                 convs.consider_fields_ty = true;
             }
 
-            if input.peek(token::Comma) {
+            if !input.is_empty() {
                 let comma = input.parse::<token::Comma>()?;
                 if !convs.tys.empty_or_trailing() {
                     convs.tys.push_punct(comma);
